@@ -439,7 +439,11 @@ def part_builtin_matrix(ctx, tmp):
             by_b[c[0]["builtin"]].append(c)
             by_s[c[2]].append(c)
         pick = [rnd.choice(v) for _, v in sorted(by_b.items())] + [rnd.choice(v) for _, v in sorted(by_s.items())]
-        pick += rnd.sample(built, 300 - len(pick))
+        for tpl, h, sh in M.regression_cases():   # cases that exposed a defect once
+            b = M.build(tpl, h, sh)
+            if b is not None:
+                pick.append((tpl, h, sh, b))
+        pick += rnd.sample(built, max(0, 300 - len(pick)))
         built = pick
     items = []
     for i, (tpl, h, sh, b) in enumerate(built):
